@@ -41,7 +41,7 @@ def spec():
     return _spec
 
 
-def random_doc(rng, size='small', version=None, layout=None, ifdata=None, a2ml=None, strings=None, **kw):
+def random_doc(rng, size='small', version=None, layout=None, ifdata=None, a2ml=None, strings=None, dupnames=0.0, **kw):
     sp = spec()
     version = version or rng.choice(VERSIONS)
     sizes = {'tiny': (3, 1, 0.15), 'small': (4, 2, 0.3), 'medium': (6, 3, 0.5), 'large': (8, 4, 0.7)}
@@ -49,12 +49,43 @@ def random_doc(rng, size='small', version=None, layout=None, ifdata=None, a2ml=N
     opts = docgen.GenOptions(version=version, max_depth=depth, max_repeat=rep, p_optional=popt, ifdata=ifdata, a2ml=a2ml,
                              string_classes=strings or ['plain', 'empty', 'escapes', 'dquote', 'utf8'], **kw)
     node = docgen.gen_tree(sp, rng, opts)
+    if dupnames and rng.random() < dupnames:
+        duplicate_named(node, rng, sp)
     if rng.random() < 0.85:
         order_positions(node)
     lay = layout or docgen.Layout(mode=rng.choice(['canonical', 'random', 'oneline']), crlf=rng.random() < 0.2,
                                   comments=rng.choice([None, None, 'block-level', 'everywhere']))
     text, toks = docgen.render(node, rng, lay, sp)
     return node, text, toks
+
+
+def duplicate_named(node, rng, sp, times=None):
+    """give some name-keyed lists (MEASUREMENT .. of a MODULE, OVERWRITE of an INSTANCE, ...) two or three elements with the
+    same name: for OVERWRITE (component name + axis number) that is what a valid file looks like, for the others it is a
+    file the library accepts without a diagnostic; every element must survive load and write"""
+    import copy
+    cands = []
+    for n, _parent in node.walk():
+        ti = sp.info.get(n.type) if n.type else None
+        if ti is None:
+            continue
+        for k in n.kids:
+            it = ti.item(k.tag) if k.tag else None
+            if it is not None and it.named and it.repeat and k.fields:
+                cands.append((n, k))
+    rng.shuffle(cands)
+    for n, k in cands[:times or rng.choice([1, 1, 2, 3])]:
+        for _ in range(rng.choice([1, 1, 2])):
+            dup = copy.deepcopy(k)
+            for v in dup.fields[1:]:
+                if getattr(v, 'kind', None) == 'int' and isinstance(v.value, int) and 0 <= v.value < 100:
+                    v.value += 1
+                    v.text = str(v.value)
+                    break
+            pos = max(i for i, x in enumerate(n.kids) if x is k) + 1
+            n.kids.insert(rng.choice([pos, len(n.kids)]) if n.payload is None else pos, dup)
+            if n.payload is not None:
+                n.payload.insert(max(i for i, x in enumerate(n.payload) if x is k) + 1, dup)
 
 
 def order_positions(node):
